@@ -680,6 +680,13 @@ func streamCLI(seed uint64, idx int) caseT {
 		return caseT{lines: []string{"XB " + g.r.pick([]string{"s", "f"}) + " " + hexField(expr) + " " + strconv.Itoa(n)}}
 	}
 	mode := g.r.pick([]string{"s", "f", "s", "f", "s", "f", "m", "a0", "a2"})
+	if idx%25 == 3 {
+		// integers of 16 and more digits in the input: the document the library sees holds float64 values, whatever the decoder is
+		// configured to do, and everything downstream (comparators, functions, the printed form) starts from that
+		input = g.r.pick([]string{"{\"id\":1234567890123456789,\"a\":[9007199254740993,12345678901234567890123,1.5],\"b\":-9223372036854775809}", "[18446744073709551616,9007199254740993]", "1234567890123456789", "{\"id\":100000000000000000000}"})
+		expr = g.r.pick([]string{"@", "id", "id > `100`", "id == `1234567890123456789`", "to_string(id)", "type(id)", "abs(id)", "sum(a)", "a[?@ > `1`]", "max_by(a, &@)", "to_number(id)", "sort(a)", "[0]", "@[?@ > `1`]", "type(@)", "to_string(@)", "b < `0`", "[id, b]", "{x: id}", "a[0] == `9007199254740992`", "avg(a)", "not_null(id)", "to_array(id)[0]"})
+		mode = g.r.pick([]string{"s", "f"})
+	}
 	if idx%40 == 9 {
 		// standard input is the null device (not a pipe): empty input, nothing may be printed (line kind XD, implementation only)
 		return caseT{lines: []string{"XD " + hexField(expr)}}
